@@ -62,3 +62,19 @@ pub(crate) fn fmt_format_stub(_args: core::fmt::Arguments<'_>) -> String {
 pub(crate) fn leak(v: Vec<u8>) -> &'static [u8] {
     Box::leak(v.into_boxed_slice())
 }
+
+/// Cut K8: arbitrary bytes instead of the system RNG.
+pub(crate) fn fill_any(data: &mut [u8]) {
+    let mut i = 0;
+    while i < data.len() {
+        data[i] = kani::any();
+        i += 1;
+    }
+}
+
+/// `N` symbolic bytes as a leaked static slice plus a `Bytes` view of it (static vtable: no refcount traffic).
+pub(crate) fn sym_static<const N: usize>() -> (&'static [u8], bytes::Bytes) {
+    let buf: [u8; N] = kani::any();
+    let s: &'static [u8] = Box::leak(Box::new(buf));
+    (s, bytes::Bytes::from_static(s))
+}
